@@ -69,17 +69,91 @@ TYPED = {'TYPE': ['string', 'boolean', 'uint8', 'real32', 'datetime', 'char16', 
          'PROPAGATED': ['true', 'false', '', 'TRUE', ' true ', 'no']}
 
 
+CLSREF = ('VALUE.REFERENCE', {}, [('CLASSNAME', {'NAME': 'C'}, [])])
+LCPREF = ('VALUE.REFERENCE', {}, [('LOCALCLASSPATH', {}, [('LOCALNAMESPACEPATH', {}, [('NAMESPACE', {'NAME': 'r'}, [])]),
+                                                        ('CLASSNAME', {'NAME': 'C'}, [])])])
+INSTREF = ('VALUE.REFERENCE', {}, [('INSTANCENAME', {'CLASSNAME': 'C'}, [])])
+
+
+def smart(name, attrs, kids, r):
+    """mutations aimed at what the pywbem constructors / setters check, chosen by the element they apply to"""
+    if name == 'INSTANCENAME':
+        c = r.choice(['clsref', 'nullkey', 'dupname', 'unnamed', 'unnamedref'])
+        if c == 'clsref':
+            kids.insert(r.randrange(len(kids) + 1), ('KEYBINDING', {'NAME': r.choice(['k', 'K', 'x'])}, [r.choice([CLSREF, LCPREF, INSTREF])]))
+        elif c == 'nullkey':
+            kids.insert(r.randrange(len(kids) + 1), ('KEYBINDING', {'NAME': r.choice(['k', 'K', 'x'])},
+                                                      [('KEYVALUE', {'VALUETYPE': 'boolean'}, [r.choice(['', ' ', 'true'])])]))
+        elif c == 'dupname':
+            ks = [k for k in kids if isinstance(k, tuple) and k[0] == 'KEYBINDING']
+            if ks:
+                k = r.choice(ks)
+                nm = k[1].get('NAME', 'k')
+                for n2 in r.sample([nm, flipcase(nm), nm.upper(), nm.lower()], 2):
+                    kids.insert(r.randrange(len(kids) + 1), ('KEYBINDING', {'NAME': n2},
+                                                              [('KEYVALUE', {'VALUETYPE': 'string'}, [r.choice(['1', '2'])])]))
+        elif c == 'unnamed':
+            kids[:] = [('KEYVALUE', {'VALUETYPE': r.choice(['boolean', 'string', 'numeric'])}, [r.choice(['', 'true', '1'])])]
+        else:
+            kids[:] = [r.choice([CLSREF, LCPREF, INSTREF])]
+    elif name == 'KEYBINDING':
+        kids[:] = [r.choice([CLSREF, LCPREF, INSTREF, ('KEYVALUE', {'VALUETYPE': 'boolean'}, ['']),
+                             ('KEYVALUE', {'TYPE': 'boolean'}, [' '])])]
+    elif name == 'LOCALNAMESPACEPATH':
+        ns = ('NAMESPACE', {'NAME': r.choice(['', '/', 'a/', '/a', '//', 'a//b'])}, [])
+        kids.insert(r.choice([0, len(kids)]), ns)
+    elif name in ('PROPERTY', 'PROPERTY.ARRAY', 'PARAMETER', 'PARAMETER.ARRAY', 'QUALIFIER', 'METHOD'):
+        c = r.choice(['type', 'emb', 'novalue'])
+        if c == 'type':
+            attrs['TYPE'] = r.choice(TYPED['TYPE'])
+        elif c == 'emb' and name.startswith('PROPERTY'):
+            attrs[r.choice(['EmbeddedObject', 'EMBEDDEDOBJECT'])] = r.choice(TYPED['EmbeddedObject'])
+        else:
+            kids[:] = [k for k in kids if not (isinstance(k, tuple) and k[0].startswith('VALUE'))]
+            attrs['TYPE'] = r.choice(TYPED['TYPE'])
+    elif name == 'QUALIFIER.DECLARATION':
+        c = r.choice(['isarray', 'type', 'shape'])
+        if c == 'isarray':
+            attrs['ISARRAY'] = r.choice(TYPED['ISARRAY'])
+        elif c == 'type':
+            attrs['TYPE'] = r.choice(TYPED['TYPE'])
+        else:
+            kids[:] = [k for k in kids if not (isinstance(k, tuple) and k[0].startswith('VALUE'))]
+            kids.append(r.choice([('VALUE', {}, ['1']), ('VALUE.ARRAY', {}, []), ('VALUE.ARRAY', {}, [('VALUE', {}, ['1'])])]))
+            attrs['ISARRAY'] = r.choice(['true', 'false', ''])
+    elif name == 'VALUE' and r.random() < 0.5:
+        kids[:] = [r.choice(TEXTS)]
+    return name, attrs, kids
+
+
+SMART_AT = ('INSTANCENAME', 'KEYBINDING', 'LOCALNAMESPACEPATH', 'PROPERTY', 'PROPERTY.ARRAY', 'PARAMETER',
+            'PARAMETER.ARRAY', 'QUALIFIER', 'METHOD', 'QUALIFIER.DECLARATION', 'VALUE')
+
+
+def node_at(tt, path):
+    for i in path:
+        tt = tt[2][i]
+    return tt
+
+
 def flipcase(s):
     return s.swapcase() if s.swapcase() != s else s + 'x'
 
 
 def mutate(tt, r):
-    p = r.choice(nodes(tt, []))
+    ps = nodes(tt, [])
+    p = r.choice(ps)
     kind = r.choice(KINDS)
+    if r.random() < 0.3:
+        cand = [q for q in ps if node_at(tt, q)[0] in SMART_AT]
+        if cand:
+            p, kind = r.choice(cand), 'smart'
 
     def f(n):
         name, attrs, kids = n[0], dict(n[1] or {}), list(n[2])
-        if kind == 'attrval' and attrs:
+        if kind == 'smart':
+            name, attrs, kids = smart(name, attrs, kids, r)
+        elif kind == 'attrval' and attrs:
             attrs[r.choice(sorted(attrs))] = r.choice(ATTRVALS)
         elif kind == 'dropattr' and attrs:
             del attrs[r.choice(sorted(attrs))]
